@@ -668,3 +668,216 @@ static void rec_elf(vt::Rng& g) {
   r.li("def", dv);
   r.emit();
 }
+
+// =============================================================== EllipticFunction observations
+struct EP { double k2, kp2, a2, ap2; };
+enum { LF = 0, LE = 1, LD = 2, LPI = 3, LG = 4, LH = 5 };
+// integrand of the Legendre integrals in terms of s = sin(theta), c = cos(theta)
+static Q legf(const EP& p, int kind, Q s, Q c) {
+  Q d2 = p.k2 < 0 ? 1 - (Q)p.k2 * s * s : (Q)p.kp2 + (Q)p.k2 * c * c;
+  Q al = p.a2 < 0 ? 1 - (Q)p.a2 * s * s : (Q)p.ap2 + (Q)p.a2 * c * c;
+  Q d = sqrtq(d2);
+  switch (kind) {
+    case LF: return 1 / d; case LE: return d; case LD: return s * s / d;
+    case LPI: return 1 / (d * al); case LG: return d / al; default: return c * c / (al * d);
+  }
+}
+// is the complete integral finite?
+static bool leg_finite(const EP& p, int kind) {
+  bool k1 = p.kp2 == 0, a1 = p.ap2 == 0;
+  switch (kind) {
+    case LF: case LD: return !k1; case LE: return true;
+    case LPI: return !k1 && !a1; case LG: return !a1; default: return !(k1 && a1) && !(a1 && k1);
+  }
+}
+// int_0^r, 0 <= r <= pi/2, integrated in t = pi/2 - theta so that the near-singular end is at t = 0
+static Q leg_part(const EP& p, int kind, Q r) {
+  Q t0 = QH - r; if (t0 < 0) t0 = 0;
+  return integ([&](Q t) { return legf(p, kind, cosq(t), sinq(t)); }, t0, QH);
+}
+struct LegRef {
+  EP p; Q comp[6]; bool have[6];
+  explicit LegRef(const EP& q) : p(q) { for (int i = 0; i < 6; ++i) have[i] = false; }
+  Q complete(int kind) { if (!have[kind]) { comp[kind] = leg_part(p, kind, QH); have[kind] = true; } return comp[kind]; }
+  // X(phi) for any real phi: 2 n X_c + sign(r) X(|r|), phi = n pi + r
+  Q at(int kind, Q phi) {
+    Q n = nearbyintq(phi / QPI), r = phi - n * QPI;
+    Q v = leg_part(p, kind, qabs(r)); if (r < 0) v = -v;
+    return n == 0 ? v : 2 * n * complete(kind) + v;
+  }
+};
+static void ep_fields(Rec& r, const EP& p) {
+  r.i("k2s", sgn(p.k2)).i("k2e", ilog2(p.k2)).i("kp2e", ilog2(p.kp2)).i("a2s", sgn(p.a2)).i("a2e", ilog2(p.a2)).i("ap2e", ilog2(p.ap2));
+}
+static EllipticFunction mkell(const EP& p) { return EllipticFunction(p.k2, p.a2, p.kp2, p.ap2); }
+
+static void obs_ec(const EP& p, Rec& r) {
+  EllipticFunction e = mkell(p); LegRef R(p);
+  double v[7] = {e.K(), e.E(), e.D(), e.Pi(), e.G(), e.H(), e.KE()};
+  vector<long long> res, inf;
+  for (int k = 0; k < 6; ++k) {
+    inf.push_back(std::isinf(v[k]) ? 1 : std::isnan(v[k]) ? 2 : 0);
+    long long x = -1;
+    if (leg_finite(p, k)) { g_qbad = false; Q q = R.complete(k); x = g_qbad ? -1 : relU((Q)v[k], q); }
+    res.push_back(x);
+  }
+  // K - E = k2 D
+  long long ke = -1; if (leg_finite(p, LF)) { g_qbad = false; Q q = R.complete(LF) - R.complete(LE); ke = g_qbad ? -1 : absU((Q)v[6], q, qmax(qabs(R.complete(LF)), 1)); }
+  res.push_back(ke); inf.push_back(std::isinf(v[6]) ? 1 : std::isnan(v[6]) ? 2 : 0);
+  ep_fields(r, p); r.li("r", res).li("inf", inf);
+  // Legendre's relation for 0 < k2 < 1:  E K' + E' K - K K' = pi/2
+  long long leg = -1;
+  if (p.k2 > 0 && p.kp2 > 0) {
+    EllipticFunction c(p.kp2, 0, p.k2, 1);
+    Q t1 = (Q)e.E() * (Q)c.K(), t2 = (Q)c.E() * (Q)e.K(), t3 = (Q)e.K() * (Q)c.K();
+    leg = absU(t1 + t2 - t3, QH, qabs(t1) + qabs(t2) + qabs(t3));
+  }
+  r.i("leg", leg);
+}
+static void obs_ei(const EP& p, double phi, Rec& r) {
+  EllipticFunction e = mkell(p); LegRef R(p);
+  bool pastpole = fabs(phi) >= 1.5707963267948966;
+  double v[6] = {e.F(phi), e.E(phi), e.D(phi), e.Pi(phi), e.G(phi), e.H(phi)};
+  vector<long long> res, cl;
+  Q ref[6]; bool ok[6];
+  for (int k = 0; k < 6; ++k) {
+    cl.push_back(vt::cls(v[k]));
+    ok[k] = leg_finite(p, k) || !pastpole;
+    long long x = -1;
+    if (ok[k]) { g_qbad = false; ref[k] = R.at(k, (Q)phi); if (g_qbad) ok[k] = false; else x = relU((Q)v[k], ref[k]); }
+    res.push_back(x);
+  }
+  ep_fields(r, p); r.li("phi", d3(phi)).b("past", pastpole).li("r", res).li("cl", cl);
+  // the argument in degrees
+  long long red = -1;
+  { double ang = phi * 57.29577951308232; g_qbad = false; Q q = R.at(LE, (Q)ang * QPI / 180); if (!g_qbad) red = relU((Q)e.Ed(ang), q); }
+  r.i("red", red);
+  // identities stated in the header: alpha2 = 0 reductions; G and H in terms of F and Pi
+  vector<long long> id;
+  auto sc = [&](Q a, Q b, Q c) { return qabs(a) + qabs(b) + qabs(c); };
+  if (p.a2 == 0) {
+    id.push_back(relU((Q)v[3], (Q)v[0])); id.push_back(relU((Q)v[4], (Q)v[1]));
+    id.push_back(absU((Q)v[5], (Q)v[0] - (Q)v[2], sc(v[0], v[2], 0)));
+  } else if (std::isfinite(v[0]) && std::isfinite(v[3])) {
+    Q ka = (Q)p.k2 / (Q)p.a2, ia = 1 / (Q)p.a2;
+    id.push_back(-1);
+    id.push_back(absU((Q)v[4], ka * (Q)v[0] + (1 - ka) * (Q)v[3], sc(ka * (Q)v[0], (1 - ka) * (Q)v[3], 0)));
+    id.push_back(absU((Q)v[5], ia * (Q)v[0] + (1 - ia) * (Q)v[3], sc(ia * (Q)v[0], (1 - ia) * (Q)v[3], 0)));
+  } else { id.push_back(-1); id.push_back(-1); id.push_back(-1); }
+  r.li("id", id);
+  // periodic parts from sn = sin(phi), cn = cos(phi): delta X = (pi/2) X(phi)/X_c - phi, period pi
+  double sn = sin(phi), cn = cos(phi), dn = e.Delta(sn, cn);
+  double dv[6] = {e.deltaF(sn, cn, dn), e.deltaE(sn, cn, dn), e.deltaD(sn, cn, dn), e.deltaPi(sn, cn, dn), e.deltaG(sn, cn, dn), e.deltaH(sn, cn, dn)};
+  Q pe = atan2q((Q)sn, (Q)cn); if (cn < 0) pe += (sn < 0 ? QPI : -QPI);     // folded into [-pi/2, pi/2]
+  vector<long long> dl;
+  for (int k = 0; k < 6; ++k) {
+    long long x = -1;
+    if (leg_finite(p, k)) { g_qbad = false; Q q = QH * R.at(k, pe) / R.complete(k) - pe; if (!g_qbad) x = absU((Q)dv[k], q, 1); }
+    dl.push_back(x);
+  }
+  r.li("dl", dl);
+  // the (sn, cn, dn) interface, "as though phi in (-pi, pi]"
+  vector<long long> tr;
+  { Q pf = atan2q((Q)sn, (Q)cn);
+    double tv[6] = {e.F(sn, cn, dn), e.E(sn, cn, dn), e.D(sn, cn, dn), e.Pi(sn, cn, dn), e.G(sn, cn, dn), e.H(sn, cn, dn)};
+    for (int k = 0; k < 6; ++k) {
+      long long x = -1;
+      if (leg_finite(p, k)) { g_qbad = false; Q q = R.at(k, pf); if (!g_qbad) x = relU((Q)tv[k], q); }
+      tr.push_back(x);
+    } }
+  r.li("tr", tr);
+}
+// inverse of E, Jacobi amplitude and elliptic functions
+static void obs_ej(const EP& p, double x, Rec& r) {
+  EllipticFunction e = mkell(p); LegRef R(p);
+  ep_fields(r, p); r.li("x", d3(x));
+  auto back = [&](int kind, double phi, Q target, long long& ru, long long& rp) {   // mixed forward/backward residual
+    ru = rp = -1; if (!std::isfinite(phi)) { ru = rp = RNAN; return; }
+    g_qbad = false; Q q = R.at(kind, (Q)phi); if (g_qbad) return;
+    Q s = sinq((Q)phi), c = cosq((Q)phi), w = kind == LE ? 1 / legf(p, LE, s, c) : 1 / legf(p, LF, s, c);   // d phi / d X
+    ru = absU(q, target, qmax(qabs(target), (Q)1e-300));
+    rp = absU(q * w, target * w, qmax(qabs((Q)phi), (Q)1e-300));
+  };
+  long long ru, rp;
+  if (p.kp2 != 0 || true) { double phi = e.Einv(x); back(LE, phi, (Q)x, ru, rp); r.i("ieu", ru).i("iep", rp).i("iec", vt::cls(phi)); }
+  { // deltaEinv(sin tau, cos tau) = Einv(tau 2E/pi) - tau, tau folded into [-pi/2, pi/2]
+    double st = sin(x), ct = cos(x), dv = e.deltaEinv(st, ct);
+    Q tau = atan2q((Q)st, (Q)ct); if (ct < 0) tau += (st < 0 ? QPI : -QPI);
+    long long du = -1, dp = -1;
+    if (std::isfinite(dv)) { Q phi = (Q)dv + tau; g_qbad = false; Q q = R.at(LE, phi), tg = tau * R.complete(LE) / QH;
+      if (!g_qbad) { du = absU(q, tg, qmax(qabs(tg), 1)); } }
+    r.i("deu", du).i("dec", vt::cls(dv)); (void) dp;
+  }
+  if (p.kp2 != 0) {   // am(u): F(am(u)) = u; sn, cn, dn
+    double sn, cn, dn, phi = e.am(x, sn, cn, dn), phi1 = e.am(x);
+    back(LF, phi, (Q)x, ru, rp);
+    r.i("amu", ru).i("amp", rp).b("ameq", vt::bits(phi) == vt::bits(phi1));
+    Q s = sinq((Q)phi), c = cosq((Q)phi);
+    r.li("amj", {absU((Q)sn, s, 1), absU((Q)cn, c, 1), absU((Q)dn, 1 / legf(p, LF, s, c), 1)});
+    if (p.k2 >= 0) {
+      double s2, c2, d2; e.sncndn(x, s2, c2, d2);
+      Q scale = qmax(1, qabs((Q)x));
+      r.li("snj", {absU((Q)s2, s, scale), absU((Q)c2, c, scale), absU((Q)d2, 1 / legf(p, LF, s, c), scale),
+                   absU(sq((Q)s2) + sq((Q)c2), 1, 1), absU(sq((Q)d2) + (Q)p.k2 * sq((Q)s2), 1, 1)});
+    } else r.li("snj", {-1, -1, -1, -1, -1});
+  } else {
+    double sn, cn, dn; e.sncndn(x, sn, cn, dn); double phi = e.am(x);
+    Q t = tanhq((Q)x), ch = 1 / coshq((Q)x);
+    r.i("amu", relU((Q)phi, atanq(sinhq((Q)x)))).i("amp", -1).b("ameq", true)
+     .li("amj", {-1, -1, -1}).li("snj", {absU((Q)sn, t, 1), absU((Q)cn, ch, 1), absU((Q)dn, ch, 1), -1, -1});
+  }
+}
+
+// ---------------------------------------------------------------- Carlson symmetric integrals: definitions by quadrature
+// int over t in (0, inf) with t = exp(s): trapezoidal rule, step 1/4 (error ~ exp(-8 pi^2))
+static Q carl_quad(int fn, Q x, Q y, Q z, Q p) {
+  Q mn = 0, mxv = 0; bool first = true;
+  for (Q v : {x, y, z, p}) if (v > 0) { if (first) { mn = mxv = v; first = false; } else { mn = qmin(mn, v); mxv = qmax(mxv, v); } }
+  Q lo = logq(mn) - 180, hi = logq(mxv) + 180, h = (Q)0.25, sum = 0;
+  long n0 = (long) floorq(lo / h), n1 = (long) ceilq(hi / h);
+  for (long i = n0; i <= n1; ++i) {
+    Q t = expq(i * h), v;
+    switch (fn) {
+      case 0: v = (Q)0.5 / sqrtq((t + x) * (t + y) * (t + z)); break;                              // RF
+      case 1: v = (Q)0.5 / (sqrtq(t + x) * (t + y)); break;                                          // RC
+      case 2: v = (Q)1.5 / (sqrtq((t + x) * (t + y) * (t + z)) * (t + p)); break;                   // RJ
+      case 3: v = (Q)1.5 / (sqrtq((t + x) * (t + y)) * (t + z) * sqrtq(t + z)); break;              // RD
+      default: v = (Q)0.25 / sqrtq((t + x) * (t + y) * (t + z)) * (x / (t + x) + y / (t + y) + z / (t + z)) * t; break;   // RG
+    }
+    sum += v * t;
+  }
+  return sum * h;
+}
+typedef EllipticFunction EF;
+// fn: 0 RF3, 1 RF2, 2 RC, 3 RG3, 4 RG2, 5 RJ, 6 RD;  a[] holds the arguments
+static void obs_rc(int fn, const double* a, Rec& r) {
+  double x = a[0], y = a[1], z = a[2], p = a[3];
+  r.i("fn", fn).li("ax", {ilog2(x), ilog2(y), fn == 1 || fn == 2 || fn == 4 ? -9999 : ilog2(z), fn == 5 ? ilog2(p) : -9999});
+  double v; Q q; vector<long long> st;   // structure residuals
+  auto rel2 = [](double u, double w) { return relU((Q)u, (Q)w); };
+  switch (fn) {
+    case 0: v = EF::RF(x, y, z); q = carl_quad(0, x, y, z, 0);
+      st = {max(rel2(EF::RF(y, z, x), v), rel2(EF::RF(z, x, y), max(v, v))), max(rel2(EF::RF(y, x, z), v), rel2(EF::RF(x, z, y), v)),
+            relU((Q)EF::RF(4 * x, 4 * y, 4 * z), (Q)v / 2)};
+      { double lam = sqrt(x) * sqrt(y) + sqrt(y) * sqrt(z) + sqrt(z) * sqrt(x);
+        st.push_back(relU((Q)EF::RF((x + lam) / 4, (y + lam) / 4, (z + lam) / 4), (Q)v)); }
+      st.push_back(z == 0 ? rel2(EF::RF(x, y), v) : -1);
+      st.push_back(y == z && y > 0 ? rel2(EF::RC(x, y), v) : -1);
+      break;
+    case 1: v = EF::RF(x, y); q = carl_quad(0, x, y, 0, 0);
+      st = {rel2(EF::RF(y, x), v), rel2(EF::RF(x, y, 0.0), v), relU((Q)EF::RF(4 * x, 4 * y), (Q)v / 2)}; break;
+    case 2: v = EF::RC(x, y); q = carl_quad(1, x, y, 0, 0);
+      st = {rel2(EF::RF(x, y, y), v), relU((Q)EF::RC(4 * x, 4 * y), (Q)v / 2)}; break;
+    case 3: v = EF::RG(x, y, z); q = carl_quad(4, x, y, z, 0);
+      st = {max(rel2(EF::RG(y, z, x), v), rel2(EF::RG(z, x, y), v)), max(rel2(EF::RG(y, x, z), v), rel2(EF::RG(x, z, y), v)),
+            relU((Q)EF::RG(4 * x, 4 * y, 4 * z), 2 * (Q)v), z == 0 ? rel2(EF::RG(x, y), v) : -1}; break;
+    case 4: v = EF::RG(x, y); q = carl_quad(4, x, y, 0, 0);
+      st = {rel2(EF::RG(y, x), v), rel2(EF::RG(x, y, 0.0), v), relU((Q)EF::RG(4 * x, 4 * y), 2 * (Q)v)}; break;
+    case 5: v = EF::RJ(x, y, z, p); q = carl_quad(2, x, y, z, p);
+      st = {max(rel2(EF::RJ(y, z, x, p), v), rel2(EF::RJ(z, x, y, p), v)), max(rel2(EF::RJ(y, x, z, p), v), rel2(EF::RJ(x, z, y, p), v)),
+            relU((Q)EF::RJ(4 * x, 4 * y, 4 * z, 4 * p), (Q)v / 8), p == z ? rel2(EF::RD(x, y, z), v) : -1}; break;
+    default: v = EF::RD(x, y, z); q = carl_quad(3, x, y, z, 0);
+      st = {rel2(EF::RD(y, x, z), v), rel2(EF::RJ(x, y, z, z), v), relU((Q)EF::RD(4 * x, 4 * y, 4 * z), (Q)v / 8)}; break;
+  }
+  r.li("v", d3(v)).i("rq", relU((Q)v, q)).li("st", st);
+}
